@@ -142,6 +142,7 @@ def _key_names(expr, fn):
 
 def check(ck, prog, quals, rule, note=''):
     """Record obligations under `rule`; returns number of state reads found."""
+    getattr(ck, 'structural_rules', set()).add(rule)
     n_reads = 0
     fns = closure(prog, quals)
     for fn in fns:
@@ -202,13 +203,19 @@ def check(ck, prog, quals, rule, note=''):
 
 
 # ====================================================================== ownership of mutated sets
-FRESH_CALLS = {'set', 'list', 'dict', 'frozenset', 'sorted', 'copy', 'deepcopy'}
+FRESH_CALLS = {'set', 'list', 'dict', 'frozenset', 'sorted', 'copy', 'deepcopy', 'deque', 'tuple',
+               'defaultdict', 'OrderedDict', 'Counter', 'bytearray'}
 MUTATORS = {'add', 'update', 'append', 'extend', 'insert', 'remove', 'discard', 'clear', 'pop',
             'sort', 'reverse', 'intersection_update', 'difference_update',
             'symmetric_difference_update', 'setdefault', 'popitem'}
 
 
 def check_ownership(ck, fn, rule):
+    getattr(ck, 'structural_rules', set()).add(rule)
+    return _check_ownership(ck, fn, rule)
+
+
+def _check_ownership(ck, fn, rule):
     """R-OWN: a local container that is updated in place (|=, +=, .add, .update, ...) must be
     owned by this call: every assignment to that name gives it a freshly constructed object
     (literal, comprehension, set()/list()/dict() call, .copy()).  A name that can also be bound
@@ -231,6 +238,9 @@ def check_ownership(ck, fn, rule):
         if isinstance(expr, ast.Call):
             f = expr.func
             if isinstance(f, ast.Name) and f.id in FRESH_CALLS:
+                return True
+            if isinstance(f, ast.Attribute) and isinstance(f.value, ast.Name) and \
+                    f.value.id == 'collections' and f.attr in FRESH_CALLS:
                 return True
             if isinstance(f, ast.Attribute) and f.attr == 'copy':
                 return True
